@@ -14,6 +14,9 @@ open N2k.Layout
 inductive Src where
   | free
   | param (name : String)
+  /-- the function has no parameter for this field and must write this constant (an alias wrapper that fixes the
+  heading reference, or passes "not available") -/
+  | const (v : Nat)
   deriving DecidableEq, Repr
 
 structure PubField where
@@ -26,13 +29,19 @@ structure PubField where
   src : Src
   deriving Repr
 
+/-- the number of low bits of the field that must carry the parameter: for a plain integer parameter the PUBLISHED
+length (cut to the width of its C type) - a setter that masks the parameter more narrowly than the field is wrong -;
+for enumerations, flags, status unions, scaled and text parameters the width `W` their type documents -/
+def pubW (P : Pair) (f : PubField) (o : Nat) : Nat :=
+  if P.intBits.getD o 0 ≠ 0 ∧ (lookupRec P.setScaled o).isNone then min (P.intBits.getD o 0) f.len else P.W o
+
 /-- bit `i` of the field is bit `i` of the parameter; bits of the field above the width the parameter can
-use (`W`, e.g. a 3-bit enumeration in a 4-bit field, a flag in a 2-bit field) are 0 or still the parameter's
-bit `i` (which is 0 for every value below `2^W`) -/
+use (`pubW`, e.g. a 3-bit enumeration in a 4-bit field, a flag in a 2-bit field) are 0 or still the parameter's
+bit `i` (which is 0 for every value below `2^pubW`) -/
 def bitsAgree (P : Pair) (f : PubField) (o : Nat) : Bool :=
   (List.range f.len).all fun i =>
     srcAt P.setter (f.off + i) == some (.param o i) ||
-      (decide (P.W o ≤ i) && srcAt P.setter (f.off + i) == some .zero)
+      (decide (pubW P f o ≤ i) && srcAt P.setter (f.off + i) == some .zero)
 
 /-- a scaled parameter uses exactly the published offset, width, signedness and resolution; an integer
 parameter is a field of resolution 1 and, when it fills its C type, of the published signedness -/
@@ -42,9 +51,14 @@ def recAgree (P : Pair) (f : PubField) (o : Nat) : Bool :=
   | none => f.resNum == 1 && f.resExp == 0 &&
       (P.intBits.getD o 0 != f.len || P.signedInts.contains o == f.signed)
 
+/-- the field holds the constant `v` -/
+def constAgree (P : Pair) (f : PubField) (v : Nat) : Bool :=
+  (List.range f.len).all fun i => srcAt P.setter (f.off + i) == some (if v.testBit i then .one else .zero)
+
 def agreesField (P : Pair) (f : PubField) : Bool :=
   match f.src with
   | .free => true
+  | .const v => constAgree P f v
   | .param n =>
     match P.names.findIdx? (· == n) with
     | none => false
@@ -392,6 +406,186 @@ def enumFields : List (String × String × String) := [
   ("130311", "Temperature Source", "enum_TempSource"), ("130311", "Humidity Source", "enum_HumiditySource"),
   ("130312", "Source", "enum_TempSource"), ("130313", "Source", "enum_HumiditySource"), ("130314", "Source", "enum_PressureSource"),
   ("130316", "Source", "enum_TempSource")]
+
+/-! ## Every public way of producing a listed PGN (frozen)
+
+`mainTables`: PGN ↦ published layout, used for every setter overload / alias wrapper whose parameter names are those of
+the table. `wrapperTables`: overloads whose parameters differ (flag-style overloads, wrappers that fix a field) have
+a table of their own, keyed by `name/number of parameters`. Status bits: the published bit assignment of
+"Discrete Status 1" (DD206) and "Discrete Status 2" (DD223) of PGN 127489, one 1-bit field per flag. -/
+def engineFlagBits : List PubField := [
+  ⟨"DS1 Check Engine", 160, 1, false, 1, 0, .param "flagCheckEngine"⟩, ⟨"DS1 Over Temperature", 161, 1, false, 1, 0, .param "flagOverTemp"⟩,
+  ⟨"DS1 Low Oil Pressure", 162, 1, false, 1, 0, .param "flagLowOilPress"⟩, ⟨"DS1 Low Oil Level", 163, 1, false, 1, 0, .param "flagLowOilLevel"⟩,
+  ⟨"DS1 Low Fuel Pressure", 164, 1, false, 1, 0, .param "flagLowFuelPress"⟩, ⟨"DS1 Low System Voltage", 165, 1, false, 1, 0, .param "flagLowSystemVoltage"⟩,
+  ⟨"DS1 Low Coolant Level", 166, 1, false, 1, 0, .param "flagLowCoolantLevel"⟩, ⟨"DS1 Water Flow", 167, 1, false, 1, 0, .param "flagWaterFlow"⟩,
+  ⟨"DS1 Water In Fuel", 168, 1, false, 1, 0, .param "flagWaterInFuel"⟩, ⟨"DS1 Charge Indicator", 169, 1, false, 1, 0, .param "flagChargeIndicator"⟩,
+  ⟨"DS1 Preheat Indicator", 170, 1, false, 1, 0, .param "flagPreheatIndicator"⟩, ⟨"DS1 High Boost Pressure", 171, 1, false, 1, 0, .param "flagHighBoostPress"⟩,
+  ⟨"DS1 Rev Limit Exceeded", 172, 1, false, 1, 0, .param "flagRevLimitExceeded"⟩, ⟨"DS1 EGR System", 173, 1, false, 1, 0, .param "flagEgrSystem"⟩,
+  ⟨"DS1 Throttle Position Sensor", 174, 1, false, 1, 0, .param "flagTPS"⟩, ⟨"DS1 Engine Emergency Stop Mode", 175, 1, false, 1, 0, .param "flagEmergencyStopMode"⟩,
+  ⟨"DS2 Warning Level 1", 176, 1, false, 1, 0, .param "flagWarning1"⟩, ⟨"DS2 Warning Level 2", 177, 1, false, 1, 0, .param "flagWarning2"⟩,
+  ⟨"DS2 Power Reduction", 178, 1, false, 1, 0, .param "flagPowerReduction"⟩, ⟨"DS2 Maintenance Needed", 179, 1, false, 1, 0, .param "flagMaintenanceNeeded"⟩,
+  ⟨"DS2 Engine Comm Error", 180, 1, false, 1, 0, .param "flagEngineCommError"⟩, ⟨"DS2 Sub or Secondary Throttle", 181, 1, false, 1, 0, .param "flagSubThrottle"⟩,
+  ⟨"DS2 Neutral Start Protect", 182, 1, false, 1, 0, .param "flagNeutralStartProtect"⟩, ⟨"DS2 Engine Shutting Down", 183, 1, false, 1, 0, .param "flagEngineShuttingDown"⟩]
+
+/-- PGN 127489 through the overloads that take one bool per status bit -/
+def wlayout_SetN2kPGN127489_35 : List PubField := [
+  ⟨"Instance", 0, 8, false, 1, 0, .param "EngineInstance"⟩,
+  ⟨"Oil pressure", 8, 16, false, 100, 0, .param "EngineOilPress"⟩,
+  ⟨"Oil temperature", 24, 16, false, 1, 1, .param "EngineOilTemp"⟩,
+  ⟨"Temperature", 40, 16, false, 1, 2, .param "EngineCoolantTemp"⟩,
+  ⟨"Alternator Potential", 56, 16, true, 1, 2, .param "AltenatorVoltage"⟩,
+  ⟨"Fuel Rate", 72, 16, true, 1, 1, .param "FuelRate"⟩,
+  ⟨"Total Engine hours", 88, 32, false, 1, 0, .param "EngineHours"⟩,
+  ⟨"Coolant Pressure", 120, 16, false, 100, 0, .param "EngineCoolantPress"⟩,
+  ⟨"Fuel Pressure", 136, 16, false, 1000, 0, .param "EngineFuelPress"⟩,
+  ⟨"Reserved", 152, 8, false, 1, 0, .free⟩,
+  ⟨"Engine Load", 192, 8, true, 1, 0, .param "EngineLoad"⟩,
+  ⟨"Engine Torque", 200, 8, true, 1, 0, .param "EngineTorque"⟩,
+  ⟨"DS1 Check Engine", 160, 1, false, 1, 0, .param "flagCheckEngine"⟩,
+  ⟨"DS1 Over Temperature", 161, 1, false, 1, 0, .param "flagOverTemp"⟩,
+  ⟨"DS1 Low Oil Pressure", 162, 1, false, 1, 0, .param "flagLowOilPress"⟩,
+  ⟨"DS1 Low Oil Level", 163, 1, false, 1, 0, .param "flagLowOilLevel"⟩,
+  ⟨"DS1 Low Fuel Pressure", 164, 1, false, 1, 0, .param "flagLowFuelPress"⟩,
+  ⟨"DS1 Low System Voltage", 165, 1, false, 1, 0, .param "flagLowSystemVoltage"⟩,
+  ⟨"DS1 Low Coolant Level", 166, 1, false, 1, 0, .param "flagLowCoolantLevel"⟩,
+  ⟨"DS1 Water Flow", 167, 1, false, 1, 0, .param "flagWaterFlow"⟩,
+  ⟨"DS1 Water In Fuel", 168, 1, false, 1, 0, .param "flagWaterInFuel"⟩,
+  ⟨"DS1 Charge Indicator", 169, 1, false, 1, 0, .param "flagChargeIndicator"⟩,
+  ⟨"DS1 Preheat Indicator", 170, 1, false, 1, 0, .param "flagPreheatIndicator"⟩,
+  ⟨"DS1 High Boost Pressure", 171, 1, false, 1, 0, .param "flagHighBoostPress"⟩,
+  ⟨"DS1 Rev Limit Exceeded", 172, 1, false, 1, 0, .param "flagRevLimitExceeded"⟩,
+  ⟨"DS1 EGR System", 173, 1, false, 1, 0, .param "flagEgrSystem"⟩,
+  ⟨"DS1 Throttle Position Sensor", 174, 1, false, 1, 0, .param "flagTPS"⟩,
+  ⟨"DS1 Engine Emergency Stop Mode", 175, 1, false, 1, 0, .param "flagEmergencyStopMode"⟩,
+  ⟨"DS2 Warning Level 1", 176, 1, false, 1, 0, .param "flagWarning1"⟩,
+  ⟨"DS2 Warning Level 2", 177, 1, false, 1, 0, .param "flagWarning2"⟩,
+  ⟨"DS2 Power Reduction", 178, 1, false, 1, 0, .param "flagPowerReduction"⟩,
+  ⟨"DS2 Maintenance Needed", 179, 1, false, 1, 0, .param "flagMaintenanceNeeded"⟩,
+  ⟨"DS2 Engine Comm Error", 180, 1, false, 1, 0, .param "flagEngineCommError"⟩,
+  ⟨"DS2 Sub or Secondary Throttle", 181, 1, false, 1, 0, .param "flagSubThrottle"⟩,
+  ⟨"DS2 Neutral Start Protect", 182, 1, false, 1, 0, .param "flagNeutralStartProtect"⟩,
+  ⟨"DS2 Engine Shutting Down", 183, 1, false, 1, 0, .param "flagEngineShuttingDown"⟩]
+def wlayout_SetN2kEngineDynamicParam_35 : List PubField := [
+  ⟨"Instance", 0, 8, false, 1, 0, .param "EngineInstance"⟩,
+  ⟨"Oil pressure", 8, 16, false, 100, 0, .param "EngineOilPress"⟩,
+  ⟨"Oil temperature", 24, 16, false, 1, 1, .param "EngineOilTemp"⟩,
+  ⟨"Temperature", 40, 16, false, 1, 2, .param "EngineCoolantTemp"⟩,
+  ⟨"Alternator Potential", 56, 16, true, 1, 2, .param "AltenatorVoltage"⟩,
+  ⟨"Fuel Rate", 72, 16, true, 1, 1, .param "FuelRate"⟩,
+  ⟨"Total Engine hours", 88, 32, false, 1, 0, .param "EngineHours"⟩,
+  ⟨"Coolant Pressure", 120, 16, false, 100, 0, .param "EngineCoolantPress"⟩,
+  ⟨"Fuel Pressure", 136, 16, false, 1000, 0, .param "EngineFuelPress"⟩,
+  ⟨"Reserved", 152, 8, false, 1, 0, .free⟩,
+  ⟨"Engine Load", 192, 8, true, 1, 0, .param "EngineLoad"⟩,
+  ⟨"Engine Torque", 200, 8, true, 1, 0, .param "EngineTorque"⟩,
+  ⟨"DS1 Check Engine", 160, 1, false, 1, 0, .param "flagCheckEngine"⟩,
+  ⟨"DS1 Over Temperature", 161, 1, false, 1, 0, .param "flagOverTemp"⟩,
+  ⟨"DS1 Low Oil Pressure", 162, 1, false, 1, 0, .param "flagLowOilPress"⟩,
+  ⟨"DS1 Low Oil Level", 163, 1, false, 1, 0, .param "flagLowOilLevel"⟩,
+  ⟨"DS1 Low Fuel Pressure", 164, 1, false, 1, 0, .param "flagLowFuelPress"⟩,
+  ⟨"DS1 Low System Voltage", 165, 1, false, 1, 0, .param "flagLowSystemVoltage"⟩,
+  ⟨"DS1 Low Coolant Level", 166, 1, false, 1, 0, .param "flagLowCoolantLevel"⟩,
+  ⟨"DS1 Water Flow", 167, 1, false, 1, 0, .param "flagWaterFlow"⟩,
+  ⟨"DS1 Water In Fuel", 168, 1, false, 1, 0, .param "flagWaterInFuel"⟩,
+  ⟨"DS1 Charge Indicator", 169, 1, false, 1, 0, .param "flagChargeIndicator"⟩,
+  ⟨"DS1 Preheat Indicator", 170, 1, false, 1, 0, .param "flagPreheatIndicator"⟩,
+  ⟨"DS1 High Boost Pressure", 171, 1, false, 1, 0, .param "flagHighBoostPress"⟩,
+  ⟨"DS1 Rev Limit Exceeded", 172, 1, false, 1, 0, .param "flagRevLimitExceeded"⟩,
+  ⟨"DS1 EGR System", 173, 1, false, 1, 0, .param "flagEgrSystem"⟩,
+  ⟨"DS1 Throttle Position Sensor", 174, 1, false, 1, 0, .param "flagTPS"⟩,
+  ⟨"DS1 Engine Emergency Stop Mode", 175, 1, false, 1, 0, .param "flagEmergencyStopMode"⟩,
+  ⟨"DS2 Warning Level 1", 176, 1, false, 1, 0, .param "flagWarning1"⟩,
+  ⟨"DS2 Warning Level 2", 177, 1, false, 1, 0, .param "flagWarning2"⟩,
+  ⟨"DS2 Power Reduction", 178, 1, false, 1, 0, .param "flagPowerReduction"⟩,
+  ⟨"DS2 Maintenance Needed", 179, 1, false, 1, 0, .param "flagMaintenanceNeeded"⟩,
+  ⟨"DS2 Engine Comm Error", 180, 1, false, 1, 0, .param "flagEngineCommError"⟩,
+  ⟨"DS2 Sub or Secondary Throttle", 181, 1, false, 1, 0, .param "flagSubThrottle"⟩,
+  ⟨"DS2 Neutral Start Protect", 182, 1, false, 1, 0, .param "flagNeutralStartProtect"⟩,
+  ⟨"DS2 Engine Shutting Down", 183, 1, false, 1, 0, .param "flagEngineShuttingDown"⟩]
+
+/-- PGN 127250 through the wrappers that fix the heading reference (and, for true heading, send deviation and
+variation as not available, 0x7fff) -/
+def wlayout_SetN2kMagneticHeading_4 : List PubField := [
+  ⟨"SID", 0, 8, false, 1, 0, .param "SID"⟩, ⟨"Heading", 8, 16, false, 1, 4, .param "Heading"⟩,
+  ⟨"Deviation", 24, 16, true, 1, 4, .param "Deviation"⟩, ⟨"Variation", 40, 16, true, 1, 4, .param "Variation"⟩,
+  ⟨"Reference", 56, 2, false, 1, 0, .const 1⟩]
+def wlayout_SetN2kTrueHeading_2 : List PubField := [
+  ⟨"SID", 0, 8, false, 1, 0, .param "SID"⟩, ⟨"Heading", 8, 16, false, 1, 4, .param "Heading"⟩,
+  ⟨"Deviation", 24, 16, true, 1, 4, .const 32767⟩, ⟨"Variation", 40, 16, true, 1, 4, .const 32767⟩,
+  ⟨"Reference", 56, 2, false, 1, 0, .const 0⟩]
+
+/-- PGN 130314 through `SetN2kPressure` (the value parameter is called `Pressure`) -/
+def wlayout_SetN2kPressure_4 : List PubField := [
+  ⟨"SID", 0, 8, false, 1, 0, .param "SID"⟩, ⟨"Instance", 8, 8, false, 1, 0, .param "PressureInstance"⟩,
+  ⟨"Source", 16, 8, false, 1, 0, .param "PressureSource"⟩, ⟨"Pressure", 24, 32, true, 1, 1, .param "Pressure"⟩]
+
+/-- PGN 60928 through the overloads that take the 64-bit NAME as a whole -/
+def wlayout_SetN2kPGN60928_1 : List PubField := [⟨"NAME", 0, 64, false, 1, 0, .param "Name"⟩]
+def wlayout_SetN2kISOAddressClaim_1 : List PubField := [⟨"NAME", 0, 64, false, 1, 0, .param "Name"⟩]
+
+/-- PGN 129284 through `SetN2kNavigationInfo`: as the main setter, the ETA date being the same open finding
+(`C15:129284:ETA_Date`, `int16_t` parameter for an unsigned field) -/
+def wlayout_SetN2kNavigationInfo_15 : List PubField := [
+  ⟨"SID", 0, 8, false, 1, 0, .param "SID"⟩,
+  ⟨"Distance to Waypoint", 8, 32, false, 1, 2, .param "DistanceToWaypoint"⟩,
+  ⟨"Course/Bearing reference", 40, 2, false, 1, 0, .param "BearingReference"⟩,
+  ⟨"Perpendicular Crossed", 42, 2, false, 1, 0, .param "PerpendicularCrossed"⟩,
+  ⟨"Arrival Circle Entered", 44, 2, false, 1, 0, .param "ArrivalCircleEntered"⟩,
+  ⟨"Calculation Type", 46, 2, false, 1, 0, .param "CalculationType"⟩,
+  ⟨"ETA Time", 48, 32, false, 1, 4, .param "ETATime"⟩,
+  ⟨"Bearing, Origin to Destination Waypoint", 96, 16, false, 1, 4, .param "BearingOriginToDestinationWaypoint"⟩,
+  ⟨"Bearing, Position to Destination Waypoint", 112, 16, false, 1, 4, .param "BearingPositionToDestinationWaypoint"⟩,
+  ⟨"Origin Waypoint Number", 128, 32, false, 1, 0, .param "OriginWaypointNumber"⟩,
+  ⟨"Destination Waypoint Number", 160, 32, false, 1, 0, .param "DestinationWaypointNumber"⟩,
+  ⟨"Destination Latitude", 192, 32, true, 1, 7, .param "DestinationLatitude"⟩,
+  ⟨"Destination Longitude", 224, 32, true, 1, 7, .param "DestinationLongitude"⟩,
+  ⟨"Waypoint Closing Velocity", 256, 16, true, 1, 2, .param "WaypointClosingVelocity"⟩]
+
+def mainTables : List (Nat × List PubField) := [
+  (59392, layout_59392), (59904, layout_59904), (60928, layout_60928), (126993, layout_126993), (126996, layout_126996),
+  (126992, layout_126992), (127245, layout_127245), (127250, layout_127250), (127251, layout_127251), (127257, layout_127257),
+  (127488, layout_127488), (127489, layout_127489), (127505, layout_127505), (127508, layout_127508), (128259, layout_128259),
+  (128267, layout_128267), (128275, layout_128275), (129025, layout_129025), (129026, layout_129026), (129029, layout_129029),
+  (129033, layout_129033), (129283, layout_129283), (129284, layout_129284), (129539, layout_129539), (130306, layout_130306),
+  (130310, layout_130310), (130311, layout_130311), (130312, layout_130312), (130313, layout_130313), (130314, layout_130314),
+  (130316, layout_130316)]
+
+def wrapperTables : List (String × List PubField) := [
+  ("SetN2kPGN127489/35", wlayout_SetN2kPGN127489_35), ("SetN2kEngineDynamicParam/35", wlayout_SetN2kEngineDynamicParam_35),
+  ("SetN2kMagneticHeading/4", wlayout_SetN2kMagneticHeading_4), ("SetN2kTrueHeading/2", wlayout_SetN2kTrueHeading_2),
+  ("SetN2kPressure/4", wlayout_SetN2kPressure_4), ("SetN2kPGN60928/1", wlayout_SetN2kPGN60928_1),
+  ("SetN2kISOAddressClaim/1", wlayout_SetN2kISOAddressClaim_1), ("SetN2kNavigationInfo/15", wlayout_SetN2kNavigationInfo_15)]
+
+def lookupKey (l : List (String × List PubField)) (k : String) : Option (List PubField) :=
+  match l with
+  | [] => none
+  | (a, t) :: r => if a == k then some t else lookupKey r k
+
+def lookupPgn (l : List (Nat × List PubField)) (k : Nat) : Option (List PubField) :=
+  match l with
+  | [] => none
+  | (a, t) :: r => if a = k then some t else lookupPgn r k
+
+/-- the published table a public setter is held against: its own, else the one of its PGN (none: PGN not listed) -/
+def tableFor (P : Pair) : Option (List PubField) :=
+  match lookupKey wrapperTables P.setterKey with
+  | some t => some t
+  | none => lookupPgn mainTables P.pgn
+
+/-- the parameter of the field is not stored on this setter path (a constant is written instead, e.g. the heartbeat
+interval above its limit) or lies in bits the translator cannot express: nothing to compare on this path -/
+def notStored (P : Pair) (f : PubField) : Bool :=
+  match f.src with
+  | .param n =>
+    match P.names.findIdx? (· == n) with
+    | some o => P.W o == 0 && (lookupRec P.setScaled o).isNone
+    | none => false
+  | _ => false
+
+def setterAgrees (P : Pair) : Bool :=
+  match tableFor P with
+  | some L => L.all fun f => agreesField P f || notStored P f
+  | none => true
 
 /-- every published (enumerator, code) is declared with exactly that code in the headers read on this run -/
 def enumAgrees (spec gen : List (String × Nat)) : Bool := spec.all fun nc => gen.contains nc
